@@ -251,6 +251,28 @@ def run(ctx: Ctx):
             want_axes = [a_ for j_, a_ in enumerate(axes) if j_ != ax]
             ok_ = (list(rN.axis_names) == want_names and len(rN.axes) == nd - 1 and all(np.array_equal(a_, b_) for a_, b_ in zip(rN.axes, want_axes))
                    and np.asarray(rN.data).shape == ref.shape and np.allclose(np.asarray(rN.data), ref, rtol=1e-12, atol=1e-14))
+            if ok_ and t % 3 == 0:
+                # the slice is a grid like any other: written to a file and read back it keeps ITS axes and names
+                for fmt_, ext_ in (("fits", "fits"), ("hdf5", "h5")):
+                    pth_ = os.path.join(tmp, f"slice{t}.{ext_}")
+                    if os.path.exists(pth_):
+                        os.remove(pth_)
+                    try:
+                        rN.write(pth_, format=fmt_)
+                        back_ = NssGrid.read(pth_, format=fmt_)
+                        good_ = (list(back_.axis_names) == want_names and all(np.array_equal(a_, b_) for a_, b_ in zip(back_.axes, want_axes))
+                                 and np.array_equal(np.asarray(back_.data), np.asarray(rN.data)))
+                        err_ = None
+                    except Exception as ex:  # noqa
+                        good_, err_ = False, f"{type(ex).__name__}: {str(ex)[:80]}"
+                    finally:
+                        if os.path.exists(pth_):
+                            os.remove(pth_)
+                    ctx.count("slice_written_and_read_back")
+                    if not good_:
+                        ctx.violation("NssGrid.write/read", f"{fmt_}-slice-not-loss-free", f"a slice of a {nd}-dimensional grid along axis {ax} written to {fmt_} does not read back with its own axes and names" + (f" ({err_})" if err_ else ""),
+                                      {**case, "expected_names": want_names, "read_back_names": (list(back_.axis_names) if err_ is None else None)})
+                        break
             if not ok_:
                 ctx.violation("grid_slice_interp", "not-linear-blend:n-dimensional", f"the slice of a {nd}-dimensional grid along axis {ax} is not the linear blend of the neighbouring sub-grids (data, axes or names)",
                               {**case, "names": list(rN.axis_names), "expected_names": want_names, "result_shape": list(np.asarray(rN.data).shape)})
